@@ -333,6 +333,10 @@ class FnInfo:
                         for t in op_t(a) | op_t(c):
                             if t in ("len",):
                                 changed |= add(l, t)
+                    elif k == "ref":
+                        for t in tags.get(r["p"]["l"], set()):
+                            if t == "traced":
+                                changed |= add(l, t)
                 t = blk["t"]
                 if t["k"] == "call":
                     d, rr = term_callee(t)
@@ -340,6 +344,8 @@ class FnInfo:
                     l = t["dest"]["l"]
                     if name.endswith("Deserializer::<'de>::read_len"):
                         changed |= add(l, "len")
+                    elif name.endswith("TypeEnv::trace_type_with_depth") or name.endswith("TypeEnv::trace_type"):
+                        changed |= add(l, "traced")
                     elif name.endswith("::checked_mul") and len(t["args"]) == 2:
                         x, y = t["args"]
                         for p, q in ((x, y), (y, x)):
@@ -404,6 +410,14 @@ def analyse(body, entry_bits, info=None):
             nb.add(f"A:{lf}")
             # what was known about the old value of the flag no longer holds
             nb = {x for x in nb if x not in (f"V:{lf}", f"K:{lf}")}
+            if lf in CTX_TYPES:
+                # a freshly assigned type is resolved only if it is the result of trace_type
+                sp0 = op_place(r["o"]) if r["k"] == "use" else None
+                if sp0 is not None and "traced" in info.len_tags.get(sp0["l"], set()):
+                    nb.add(f"TR:{lf}")
+                else:
+                    nb.discard(f"TR:{lf}")
+                    nb.add(f"RAW:{lf}")
             src = None
             val = None
             if r["k"] == "use":
